@@ -250,6 +250,31 @@ def stream_case(ctx, dec, msgs, damage, spec_base):
             else:
                 ctx.violate('continue-on-error/wrong-yields/%s' % ksig, 'yield log differs from the undamaged messages: got lengths %r, '
                             'expected %r' % ([len(g) for g in judged], [len(g) for g in good]), spec)
+    # ---- continue-on-error with a filter that accepts every message: the same undamaged messages (the header pass made for the
+    # filter is one more place where a damaged message is met)
+    if ctx.counters['damaged_streams_full'] % 3 == 0:
+        ctx.count('damaged_streams_filtered')
+        got = []
+        saved = sys.stderr
+        sys.stderr = open(os.devnull, 'w')
+        try:
+            exc = collect(generate_bufr_message(dec, stream, continue_on_error=True, filter_expr='${%edition} >= 2 and ${%length} > 0'), cap, got)
+        finally:
+            sys.stderr.close()
+            sys.stderr = saved
+        if isinstance(exc, CaseTimeout):
+            ctx.count('case_timeouts')
+        elif exc is not None:
+            ctx.violate('continue-on-error/filter/escapes:%s/%s' % (type(exc).__name__, ksig),
+                        'with continue-on-error and a filter %s escaped from the scan (faults: %s)' % (type(exc).__name__, ksig), spec, exc=exc)
+        else:
+            judged = [g for g in got if g not in unjudged]
+            if judged != good and all(g in good for g in judged):
+                ctx.violate('continue-on-error/filter/undamaged-lost/%s' % ksig, 'with an all-accepting filter delivered %d of %d undamaged messages (faults %s)'
+                            % (len(judged), len(good), ksig), spec)
+            elif judged != good:
+                ctx.violate('continue-on-error/filter/wrong-yields/%s' % ksig, 'with an all-accepting filter the yield log differs from the undamaged messages: '
+                            'got lengths %r, expected %r' % ([len(g) for g in judged], [len(g) for g in good]), spec)
     # ---- continue-on-error, info-only
     ctx.count('damaged_streams_info')
     ctx.evaluated((stream.hex(), 'info'), bool(damage))
